@@ -236,6 +236,24 @@ def _emit_extracted(u, target, args, block, subst, emit):
             if last is None:
                 last = 1
             inserts.append((last, '\n' + text + '\n', 'before_tail'))
+        elif kind in ('loop_start', 'loop_end'):
+            k = int(arg)
+            if k < 1 or k > len(loops):
+                raise ExtractError(f'{where}: lost anchor loop #{k} in {relpath}::{fname} (function has {len(loops)} loops)')
+            from rx import lex as _lex2, match_close as _mc2
+            kw, br, hdr = loops[k - 1]
+            toks2 = _lex2(body)
+            bi = next(ix for ix, t in enumerate(toks2) if t.start == br)
+            ci = _mc2(toks2, bi)
+            if kind == 'loop_start':
+                inserts.append((br + 1, '\n' + text + '\n', f'loop{k}-start'))
+            else:
+                # before a trailing generated counter increment `i__K += 1;` if present, else before the closing brace
+                close_off = toks2[ci].start
+                seg = body[br:close_off]
+                m2 = re.search(r'i__\d+\s*\+=\s*1;\s*$', seg)
+                off = br + m2.start() if m2 else close_off
+                inserts.append((off, '\n' + text + '\n', f'loop{k}-end'))
         elif kind == 'end_body':
             inserts.append((len(body) - 1, '\n' + text + '\n', 'end_body'))
         elif kind == 'expect_loops':
